@@ -407,10 +407,10 @@ def spaces(tier):
         Space("values-stock", lambda: gen_values(2), check_values, variant="fast",
               describe="VM value of minimal spelling == value of fully parenthesised spelling over stock numeric/logic operators"),
     ]
+    sp.append(Space("classes-k3", lambda: gen_k3_levels(("B", "BU"), 3), check_trees, variant="fast",
+                    describe="all trees with 3 binary nodes over all 20 binary classes"))
     if tier == "thorough":
         sp += [
-            Space("classes-k3", lambda: gen_k3_levels(("B", "BU"), 3), check_trees, variant="fast",
-                  describe="all trees with 3 binary nodes over all 20 binary classes"),
             Space("levels-k4", lambda: gen_k3_levels(("B",), 4), check_trees, variant="fast",
                   describe="all trees with 4 binary nodes over the 10 precedence levels"),
             Space("levels-k5", lambda: gen_k3_levels(("B",), 5), check_trees, variant="fast",
